@@ -613,6 +613,7 @@ int main(int argc, char **argv)
 	}
 	if (mode == "corpus") {
 		g_counting = false;
+		install_handlers(watchdog); // a broken tree must not hang the seed-corpus generation (exit 4, no file written)
 		return mode_corpus(seed, cases, maxsize, len, g_out, maxruns > 0 ? maxruns : 40);
 	}
 	if (mode == "replay") {
